@@ -821,7 +821,8 @@ pub fn locate_family(r: &mut Rng, n: u64, x: &mut Exec, sink: &mut Sink) {
         let mut note = vec![format!("nsec={nsec:#x} nseg={nseg:#x} ndx={ndx:#x}")];
         // defects that must make open fail / absent tables
         let fidx = |b: &Built, l: &str| b.fields.iter().position(|f| f.2 == l);
-        match r.below(13) {
+        match r.below(15) {
+            13 | 14 if sp.ext_shnum => { if let Some(i) = fidx(&b, "sh0.sh_size") { let (o, w, _) = b.fields[i].clone(); let v = *r.pick(&[1u64 << 58, 1 << 62, 1 << 63, u64::MAX, u64::MAX / 64, u64::MAX / 40 + 1, 0xffff_ffff, 0x8000_0000]); let mut e = vec![]; put(&mut e, v, w, little); b.bytes[o..o + w].copy_from_slice(&e); note.push(format!("sh0.sh_size={v:#x}")); } }
             10 if sp.ext_shnum && class == 64 => { if let Some(i) = fidx(&b, "sh0.sh_size") { let (o, _w, _) = b.fields[i].clone(); let hi = if little { o + 4 } else { o + 3 }; b.bytes[hi] = *r.pick(&[1u8, 2, 0x80]); note.push("sh0.sh_size+=2^32k".into()); } }
             11 | 12 if nseg > 0 => {
                 // PN_XNUM while the file has no section header table: shdr[0] is read at e_shoff = 0
